@@ -447,3 +447,55 @@ func Word(t *rapid.T, k int, maxLen int) []int {
 	}
 	return w
 }
+
+// Nested: a rectangle with a C shaped hole (an annulus with a slit of generated width: below a pixel it closes on snapping,
+// which pinches an island off) and optionally a small hole inside the island and a second, deeper C. Mirrored/transposed at random.
+// Returns shell first, then holes; all rings simple and mutually disjoint by construction.
+func Nested(t *rapid.T, q int64) [][]P {
+	m := func(label string, lo, hi int64) int64 { return rapid.Int64Range(lo, hi).Draw(t, label) }
+	var rings [][]P
+	// from outside to inside, each margin at least 1 lattice step
+	x0, y0 := int64(0), int64(0)
+	w := m("islandW", 2*q, 8*q)
+	h := m("islandH", 2*q, 8*q)
+	a, b, c2 := m("wallOuter", 1, 2*q), m("wallC", 1, 2*q), m("moat", 1, 2*q)
+	// rectangles: R0 shell, R1 outer edge of C, R2 inner edge of C (= island boundary)
+	t1 := a
+	t2 := a + b
+	W, H := w+2*(a+b), h+2*(a+b)
+	_ = c2
+	rings = append(rings, []P{{x0, y0}, {x0 + W, y0}, {x0 + W, y0 + H}, {x0, y0 + H}})
+	x1, y1, X1, Y1 := x0+t1, y0+t1, x0+W-t1, y0+H-t1
+	x2, y2, X2, Y2 := x0+t2, y0+t2, x0+W-t2, y0+H-t2
+	slit := m("slit", 1, q+q/2)
+	if slit > (Y2-y2)-2 {
+		slit = max((Y2-y2)-2, 1)
+	}
+	ys := m("slitPos", y2+1, max(Y2-slit-1, y2+1))
+	cring := []P{{X1, ys + slit}, {X1, Y1}, {x1, Y1}, {x1, y1}, {X1, y1}, {X1, ys}, {X2, ys}, {X2, y2}, {x2, y2}, {x2, Y2}, {X2, Y2}, {X2, ys + slit}}
+	rings = append(rings, cring)
+	if rapid.IntRange(0, 3).Draw(t, "islandHole") > 0 && X2-x2 >= 4 && Y2-y2 >= 4 {
+		hx := m("hx", x2+1, X2-3)
+		hy := m("hy", y2+1, Y2-3)
+		hw := m("hw", max((X2-1-hx)/2, 1), X2-1-hx)
+		hh := m("hh", max((Y2-1-hy)/2, 1), Y2-1-hy)
+		rings = append(rings, []P{{hx, hy}, {hx + hw, hy}, {hx + hw, hy + hh}, {hx, hy + hh}})
+	}
+	// random symmetry
+	tr := rapid.IntRange(0, 7).Draw(t, "symmetry")
+	for _, r := range rings {
+		for i, p := range r {
+			if tr&1 != 0 {
+				p.X = W - p.X
+			}
+			if tr&2 != 0 {
+				p.Y = H - p.Y
+			}
+			if tr&4 != 0 {
+				p.X, p.Y = p.Y, p.X
+			}
+			r[i] = p
+		}
+	}
+	return rings
+}
